@@ -58,15 +58,14 @@ Theorem C34_bare_suffix_values :
 Proof. repeat split. Qed.
 Print Assumptions C34_bare_suffix_values.
 
-(** FULL STATEMENT "1.x bare k/m/g are binary on SizeV1/SSizeV1 wherever whitespace is
-    allowed" is refuted by the mirror: after a leading newline SSizeV1 reads "1k" as 1000
-    (bareIECSuffixRe's [.] does not cross '\n', so the text reaches humanize unrewritten),
-    while after a leading space it reads 1024.  Confirmed on the real code (known finding
-    ssizev1-bare-suffix-after-newline-is-decimal). *)
-Theorem C34_v1_suffix_meaning_refuted :
-  unmarshal TSV1 [10; 49; 107] = Some 1000%Z /\ unmarshal TSV1 [32; 49; 107] = Some 1024%Z.
+(** The 1.x binary meaning also holds after a newline in the leading whitespace (repaired
+    finding ssizev1-bare-suffix-after-newline-is-decimal: bareIECSuffixRe now has (?s);
+    before, SSizeV1 read "\n1k" as 1000). *)
+Theorem C34_v1_suffix_after_newline :
+  unmarshal TSV1 [10; 49; 107] = Some 1024%Z /\ unmarshal TV1 [10; 49; 107] = Some 1024%Z /\
+  unmarshal TSV1 [32; 10; 32; 50; 32; 32; 103; 10] = Some 2147483648%Z.
 Proof. exact ssizev1_newline_witness. Qed.
-Print Assumptions C34_v1_suffix_meaning_refuted.
+Print Assumptions C34_v1_suffix_after_newline.
 
 (** Explicit units as named (every entry of humanize's table: kb = 10^3, kib = 2^10, ...,
     bare k/m/g/t/p/e = SI on SizeV2): exact while the product stays below 2^53. *)
@@ -79,57 +78,60 @@ Proof.
 Qed.
 Print Assumptions C34_named_units_partial.
 
-(** FULL STATEMENT (SizeV2 = toml.Size, the active type on this branch):
-      forall n < 2^64, unmarshal TV2 (marshal TV2 n) = Some n.
-    REFUTED by the mirror (humanize parses through float64): 2^53+1 is written as
-    "9007199254740993" and read back as 9007199254740992; SSize(MaxInt64) is written and
-    then rejected.  Confirmed on the real code (known finding
-    size-above-2p53-not-representable). *)
-Theorem C34_sizev2_roundtrip_refuted :
-  (exists n, n < 2 ^ 64 /\ unmarshal TV2 (marshal TV2 (Z.of_N n)) <> Some (Z.of_N n)) /\
-  (exists z, (- 2 ^ 63 <= z < 2 ^ 63)%Z /\ unmarshal TSV2 (marshal TSV2 z) <> Some z).
+(** FULL STATEMENT for number+unit texts ("the value is exactly n * unit") is REFUTED above
+    2^53: the product is still computed in float64 by humanize.  "17179869183g" on SizeV2
+    gives 17179869183000000512 (open finding size-unit-product-above-2p53-inexact; such
+    texts are never produced by the configuration layer). *)
+Theorem C34_named_units_above_2p53_refuted :
+  unmarshal TV2 (dec 17179869183 ++ [103]) = Some 17179869183000000512%Z
+  /\ 17179869183 * 10 ^ 9 < 2 ^ 64.
+Proof. exact unit_product_witness. Qed.
+Print Assumptions C34_named_units_above_2p53_refuted.
+
+(** SizeV2 = toml.Size, SSizeV2 = toml.SSize (the active types on this branch): EVERY uint64 /
+    int64 written by the configuration layer (the bare integer) reads back identically.
+    Holds for the repaired parseBytesUnsigned / parseBytesSigned, which parse a plain decimal
+    integer with strconv.ParseUint before falling back to humanize (finding
+    size-above-2p53-not-representable, fixed). *)
+Theorem C34_sizev2_roundtrip :
+  (forall n, n < 2 ^ 64 -> unmarshal TV2 (marshal TV2 (Z.of_N n)) = Some (Z.of_N n)) /\
+  (forall z, (- 2 ^ 63 <= z < 2 ^ 63)%Z -> unmarshal TSV2 (marshal TSV2 z) = Some z).
 Proof.
   split.
-  - exists 9007199254740993. split; [reflexivity|].
-    change (Z.of_N 9007199254740993) with 9007199254740993%Z.
-    rewrite sizev2_witness. discriminate.
-  - exists 9223372036854775807%Z. split; [split; [discriminate|reflexivity]|].
-    rewrite ssizev2_witness. discriminate.
+  - intros n Hn. cbn [marshal unmarshal]. unfold dec_z.
+    destruct (Z.of_N n <? 0)%Z eqn:E; [lia|]. rewrite N2Z.id. apply sizev2_roundtrip, Hn.
+  - intros z Hz. apply ssizev2_roundtrip, Hz.
 Qed.
-Print Assumptions C34_sizev2_roundtrip_refuted.
+Print Assumptions C34_sizev2_roundtrip.
 
-(** Strongest true weakening: every value whose magnitude fits a 53-bit significand
-    ([repr53]: all values up to 2^53, and beyond them the multiples of 2^(log2 n - 52), e.g.
-    every whole number of KiB up to 8 EiB) round-trips on SizeV2 and SSizeV2. *)
-Theorem C34_sizev2_roundtrip_partial :
-  (forall n, n < 2 ^ 64 -> repr53 n = true ->
-     unmarshal TV2 (marshal TV2 (Z.of_N n)) = Some (Z.of_N n)) /\
-  (forall z, (- 2 ^ 63 <= z < 2 ^ 63)%Z -> repr53 (Z.to_N (Z.abs z)) = true ->
-     unmarshal TSV2 (marshal TSV2 z) = Some z) /\
-  (forall n, n < 2 ^ 53 -> repr53 n = true).
+(** What the humanize float path alone does (the code before the repair): exact exactly on
+    values with a 53-bit significand; 2^53+1 comes back as 2^53. *)
+Theorem C34_float_path_alone :
+  (forall n, n < 2 ^ 64 -> repr53 n = true -> parse_bytes (dec n) = Some n) /\
+  (forall n, n < 2 ^ 53 -> repr53 n = true) /\
+  parse_bytes (dec 9007199254740993) = Some 9007199254740992 /\
+  (forall n, 2 ^ 64 <= n -> parse_bytes (dec n) = None).
 Proof.
-  split; [|split].
-  - intros n Hn Hr. cbn [marshal unmarshal]. unfold dec_z.
-    destruct (Z.of_N n <? 0)%Z eqn:E; [lia|]. rewrite N2Z.id. apply sizev2_roundtrip_repr; assumption.
-  - intros z Hz Hr. apply ssizev2_roundtrip_repr; assumption.
-  - exact repr53_small.
+  split; [exact float_path_repr|]. split; [exact repr53_small|].
+  split; [exact float_path_witness | exact float_path_overflow_rejected].
 Qed.
-Print Assumptions C34_sizev2_roundtrip_partial.
+Print Assumptions C34_float_path_alone.
 
-(** Overflow on the float path, bare numbers: every decimal number at or above 2^64 (any
-    length) is REJECTED by SizeV2 — rounding to float64 never brings it back into range, so
-    nothing wraps.  (Partial: with a unit the product is rounded twice; not proved there.) *)
-Theorem C34_sizev2_overflow_rejected_partial :
-  forall n, 2 ^ 64 <= n -> unmarshal TV2 (dec n) = None.
-Proof. exact sizev2_overflow_rejected. Qed.
-Print Assumptions C34_sizev2_overflow_rejected_partial.
+(** Overflow of plain integer texts: every decimal number at or above 2^64 is rejected by
+    SizeV2, every one above 2^63 (with or without '-') by SSizeV2 — nothing wraps, nothing is
+    rounded into range ("-9223372036854775809" used to be accepted as MinInt64). *)
+Theorem C34_sizev2_overflow_rejected :
+  (forall n, 2 ^ 64 <= n -> unmarshal TV2 (dec n) = None) /\
+  (forall n, 2 ^ 63 < n -> unmarshal TSV2 (45 :: dec n) = None /\ unmarshal TSV2 (dec n) = None).
+Proof. split; [exact sizev2_overflow_rejected | exact ssizev2_plain_overflow_rejected]. Qed.
+Print Assumptions C34_sizev2_overflow_rejected.
 
-(** Through a TOML document a SizeV2 of 2^63 or more cannot be read back at all although it
-    is exactly representable: the encoder writes a bare integer beyond TOML's int64.
+(** Through a TOML document a SizeV2 of 2^63 or more cannot be read back at all although UnmarshalText
+    of the same text succeeds: the encoder writes a bare integer beyond TOML's int64.
     Confirmed on the real code (known finding sizev2-above-maxint64-unreadable-from-toml). *)
 Theorem C34_sizev2_toml_roundtrip_refuted :
   unmarshal_toml TV2 9223372036854775808 (marshal TV2 9223372036854775808) = None
-  /\ repr53 9223372036854775808 = true.
+  /\ unmarshal TV2 (marshal TV2 9223372036854775808) = Some 9223372036854775808%Z.
 Proof. exact sizev2_toml_witness. Qed.
 Print Assumptions C34_sizev2_toml_roundtrip_refuted.
 
@@ -144,13 +146,6 @@ Theorem C34_duration_overflow_rejected_refuted :
   unmarshal TDur s = Some 0%Z /\ dur_exact s = Some (false, 2 ^ 64, 2 ^ 64, 2).
 Proof. exact duration_wrap_witness. Qed.
 Print Assumptions C34_duration_overflow_rejected_refuted.
-
-(** The overflowing SSize text "-9223372036854775809" is accepted as MinInt64 (same float
-    path; carries the 2^53 finding's signature). *)
-Theorem C34_ssizev2_overflow_accepted_refuted :
-  unmarshal TSV2 (45 :: dec 9223372036854775809) = Some (- 9223372036854775808)%Z.
-Proof. exact ssizev2_overflow_accepted_witness. Qed.
-Print Assumptions C34_ssizev2_overflow_accepted_refuted.
 
 (** Non-vacuity: concrete texts and values. *)
 Example C34_nonvacuous :
